@@ -93,7 +93,8 @@ def parse(lines, cwd):
         base = fds[0] if (name.endswith("at") or name == "renameat2") and fds and fds[0].startswith("/") else None
         if name in ("openat", "open", "creat"):
             if name == "creat" or re.search(r"O_WRONLY|O_RDWR|O_CREAT|O_TRUNC|O_APPEND", args):
-                p = rel(retpath) if retpath and retpath.startswith("/") else (rel(strs[0], base) if strs else None)
+                # the path as the program named it (the annotated descriptor shows the link-resolved path)
+                p = rel(strs[0], base) if strs else (rel(retpath) if retpath and retpath.startswith("/") else None)
                 if p is not None:
                     ops.append(("open-w", p))
         elif name in ("rename", "renameat", "renameat2"):
